@@ -344,17 +344,13 @@ func (w *World) endCall(c *Call, applied bool, errStr string) {
 					if c.Decrement {
 						k.Desired--
 					}
-					delete(k.Instances, c.Target)
+					// membership (Instances) is what the last folded Describe answer said, exactly as the
+					// provider's own cache: it is NOT edited by escalator's writes (only desired capacity is)
 				}
 			}
 		case OpAttach:
 			if k := w.known[c.Target]; k != nil {
 				k.Desired += int64(len(c.IDs))
-				for _, id := range c.IDs {
-					if i, ok := w.aws.insts[id]; ok {
-						k.Instances[id] = w.aws.providerID(i)
-					}
-				}
 			}
 		}
 	}
